@@ -35,7 +35,7 @@ Qed.
 
 Lemma known_key_matches_table k : known_key k = existsb (bytes_eqb k) challenge_keys.
 Proof.
-  unfold known_key, set_param, empty_chal, challenge_keys. cbn [existsb].
+  unfold known_key, set_param, set_param_with, empty_chal, challenge_keys. cbn [existsb].
   key_case k (bs "realm"). key_case k (bs "domain"). key_case k (bs "nonce").
   key_case k (bs "opaque"). key_case k (bs "stale"). key_case k (bs "algorithm").
   key_case k (bs "qop"). key_case k (bs "charset"). key_case k (bs "userhash").
@@ -61,14 +61,14 @@ Definition fields_spec (uh : bool) (username realm nonce uri response : bytes)
   else if bytes_eqb k (bs "realm") then Some (Quoted realm)
   else if bytes_eqb k (bs "nonce") then Some (Quoted nonce)
   else if bytes_eqb k (bs "uri") then Some (Quoted uri)
-  else if bytes_eqb k (bs "response") then Some (Quoted response)
+  else if bytes_eqb k (bs "response") then Some (QuotedRaw response)
   else if bytes_eqb k (bs "algorithm") then
     match alg with Some a => Some (Bare a) | None => None end
   else if bytes_eqb k (bs "opaque") then
     match opaque with [] => None | _ => Some (Quoted opaque) end
   else if bytes_eqb k (bs "qop") then match qop with [] => None | _ => Some (Bare qop) end
   else if bytes_eqb k (bs "nc") then match qop with [] => None | _ => Some (Bare nc) end
-  else if bytes_eqb k (bs "cnonce") then match qop with [] => None | _ => Some (Quoted cnonce) end
+  else if bytes_eqb k (bs "cnonce") then match qop with [] => None | _ => Some (QuotedRaw cnonce) end
   else None.
 
 Lemma build_fields_lookup uh username realm nonce uri response alg opaque qop nc cnonce k :
@@ -130,7 +130,7 @@ Section WithH.
     exists fs,
       authorize H c uri method user pass cnonce = inl fs /\
       NoDup (map fst fs) /\
-      forall k, lookup_field k fs = rfc7616_field H c uri method user pass cnonce k.
+      forall k, option_map fval_sem (lookup_field k fs) = rfc7616_field H c uri method user pass cnonce k.
   Proof.
     unfold supported. destruct (rfc_registry (c_algorithm c)) as [[f sess]|] eqn:R; [|discriminate].
     intros Hq.
@@ -144,7 +144,10 @@ Section WithH.
     rewrite !(h_registered _ _ _ _ R).
     rewrite hex8_one. unfold sep3, sep2.
     destruct (c_qop c) as [|q qs], (c_algorithm c) as [|a al], (c_opaque c) as [|o os], sess,
-      (bytes_eqb (c_userhash c) (bs "true")); cbn; reflexivity.
+      (bytes_eqb (c_userhash c) (bs "true"));
+      repeat match goal with
+      | |- context [if bytes_eqb k ?K then _ else _] => destruct (bytes_eqb k K); [cbn; reflexivity|]
+      end; cbn; reflexivity.
   Qed.
 
   (* ---------- unsupported => error, no header ---------- *)
@@ -206,9 +209,9 @@ Section WithH.
     length (digest_exchange H rp first rsp user pass cnonce) <= 2 /\
     hd_error (digest_exchange H rp first rsp user pass cnonce) = Some first /\
     forall q, In q (tl (digest_exchange H rp first rsp user pass cnonce)) ->
-      r_err rsp = false /\ r_status rsp = 401%N /\
+      r_err rsp = false /\ r_status rsp = 401%N /\ rp = true /\
       w_method q = w_method first /\ w_uri q = w_uri first /\
-      (rp = true -> w_body q = w_body first) /\
+      w_ctype q = w_ctype first /\ w_body q = w_body first /\
       exists auth, w_auth q = Some auth /\
         create_digest_auth H (r_chal rsp) (w_uri first) (w_method first) user pass cnonce = inl auth.
   Proof.
@@ -219,21 +222,45 @@ Section WithH.
     2:{ split; [cbn; lia|]. split; [reflexivity|]. intros q Hq. cbn in Hq. contradiction. }
     apply N.eqb_eq in Hs.
     destruct (create_digest_auth H (r_chal rsp) (w_uri first) (w_method first) user pass cnonce) as [auth|e] eqn:Hc.
-    - split; [cbn; lia|]. split; [reflexivity|]. intros q Hq. cbn in Hq. destruct Hq as [<-|[]].
-      cbn. repeat split; auto. { intros ->. reflexivity. } now exists auth.
+    - destruct rp.
+      + split; [cbn; lia|]. split; [reflexivity|]. intros q Hq. cbn in Hq. destruct Hq as [<-|[]].
+        cbn. repeat split; auto. now exists auth.
+      + split; [cbn; lia|]. split; [reflexivity|]. intros q Hq. cbn in Hq. contradiction.
     - split; [cbn; lia|]. split; [reflexivity|]. intros q Hq. cbn in Hq. contradiction.
+  Qed.
+
+  (* a body that cannot be replayed: an error, never a second request with another body *)
+  Theorem unreplayable_is_error first rsp user pass cnonce :
+    r_err rsp = false -> r_status rsp = 401%N ->
+    (exists e, digest_middleware H false first rsp user pass cnonce = MwErr e) /\
+    digest_exchange H false first rsp user pass cnonce = [first].
+  Proof.
+    intros He Hs. unfold digest_exchange, digest_middleware. rewrite He, Hs. cbn [orb N.eqb Pos.eqb negb].
+    destruct (create_digest_auth H (r_chal rsp) (w_uri first) (w_method first) user pass cnonce);
+      split; eauto.
+  Qed.
+
+  (* the pinned code sent the credentials with an EMPTY body instead *)
+  Theorem unreplayable_pinned_refuted first rsp user pass cnonce auth :
+    r_err rsp = false -> r_status rsp = 401%N ->
+    create_digest_auth H (r_chal rsp) (w_uri first) (w_method first) user pass cnonce = inl auth ->
+    exists q, digest_middleware_pinned H false first rsp user pass cnonce = Resent q /\ w_body q = [].
+  Proof.
+    intros He Hs Hc. unfold digest_middleware_pinned. rewrite He, Hs, Hc. cbn [orb N.eqb Pos.eqb negb].
+    eexists. split; reflexivity.
   Qed.
 
   (* a supported challenge, once parsed, is always answered (no error), whatever the nonce, the
      client nonce and the hash function *)
-  Theorem supported_is_answered rp first rsp user pass cnonce c :
+  Theorem supported_is_answered first rsp user pass cnonce c :
     r_err rsp = false -> r_status rsp = 401%N -> r_chal rsp <> [] ->
     parse_challenge (r_chal rsp) = inl c -> supported c = true ->
     exists fs q,
       authorize H c (w_uri first) (w_method first) user pass cnonce = inl fs /\
-      digest_exchange H rp first rsp user pass cnonce = [first; q] /\
-      w_auth q = Some (render_fields fs) /\ (rp = true -> w_body q = w_body first) /\
-      forall k, lookup_field k fs = rfc7616_field H c (w_uri first) (w_method first) user pass cnonce k.
+      digest_exchange H true first rsp user pass cnonce = [first; q] /\
+      w_auth q = Some (render_fields fs) /\ w_body q = w_body first /\ w_ctype q = w_ctype first /\
+      forall k, option_map fval_sem (lookup_field k fs) =
+                rfc7616_field H c (w_uri first) (w_method first) user pass cnonce k.
   Proof.
     intros He Hs Hne Hp Hsup.
     destruct (digest_matches_rfc7616 c (w_uri first) (w_method first) user pass cnonce Hsup)
@@ -241,7 +268,7 @@ Section WithH.
     exists fs. eexists. split; [exact Ha|].
     unfold digest_exchange, digest_middleware, create_digest_auth. rewrite He, Hs.
     destruct (r_chal rsp) as [|b ch] eqn:Ec; [congruence|]. rewrite Hp, Ha. cbn.
-    repeat split; auto. intros ->. reflexivity.
+    repeat split; auto.
   Qed.
 End WithH.
 
@@ -254,7 +281,7 @@ Definition param_ok (p : bytes) : bool :=
 Lemma set_param_ok_indep c c' k v :
   (exists x, set_param c k v = inl x) <-> (exists x, set_param c' k v = inl x).
 Proof.
-  destruct c, c'. unfold set_param.
+  destruct c, c'. unfold set_param, set_param_with.
   repeat match goal with
   | |- context [if bytes_eqb k ?K then _ else _] => destruct (bytes_eqb k K)
   | |- context [if bytes_eqb (to_upper ?V) ?K then _ else _] => destruct (bytes_eqb (to_upper V) K)
@@ -291,7 +318,7 @@ Qed.
 Theorem param_unknown_key_bad c k v :
   known_key k = false -> set_param c k v = inr EBadChallenge.
 Proof.
-  unfold known_key. destruct c. unfold set_param, empty_chal.
+  unfold known_key. destruct c. unfold set_param, set_param_with, empty_chal.
   repeat match goal with
   | |- context [if bytes_eqb k ?K then _ else _] => destruct (bytes_eqb k K); [discriminate|]
   end.
@@ -299,10 +326,10 @@ Proof.
 Qed.
 
 Theorem param_charset_not_utf8 c v :
-  bytes_eqb (to_upper (trim_quotes v)) (bs "UTF-8") = false ->
+  bytes_eqb (to_upper (unquote_param v)) (bs "UTF-8") = false ->
   set_param c (bs "charset") v = inr ECharset.
 Proof.
-  intros Hv. destruct c. unfold set_param.
+  intros Hv. destruct c. unfold set_param, set_param_with.
   replace (bytes_eqb (bs "charset") (bs "realm")) with false by (vm_compute; reflexivity).
   replace (bytes_eqb (bs "charset") (bs "domain")) with false by (vm_compute; reflexivity).
   replace (bytes_eqb (bs "charset") (bs "nonce")) with false by (vm_compute; reflexivity).
@@ -345,3 +372,10 @@ Example pinned_rejects_comma_in_realm :
   exists c, parse_challenge (bs "Digest realm=""Acme, Inc."", nonce=""n""") = inl c /\
             c_realm c = bs "Acme, Inc.".
 Proof. split; [vm_compute; reflexivity|]. eexists. split; vm_compute; reflexivity. Qed.
+
+Example pinned_keeps_quoted_pair :
+  set_param_pinned empty_chal (bs "realm") (bs """say \""hi\""""") <>
+  set_param empty_chal (bs "realm") (bs """say \""hi\""""") /\
+  exists c, set_param empty_chal (bs "realm") (bs """say \""hi\""""") = inl c /\
+            c_realm c = bs "say ""hi""".
+Proof. split; [vm_compute; discriminate|]. eexists. split; vm_compute; reflexivity. Qed.
